@@ -68,7 +68,7 @@ impl Property for C13 {
         ]
     }
     fn expected_probes(&self) -> Vec<&'static str> {
-        vec!["recorder_short_writes", "recorder_error", "recorder_write_zero", "load_same_emulator", "load_fresh_dirty", "locked_state", "sp_in_screen", "twin_continuation", "save_failed_cleanly", "iff1_differs_from_iff2_at_save"]
+        vec!["recorder_short_writes", "recorder_error", "recorder_write_zero", "load_same_emulator", "load_fresh_dirty", "locked_state", "sp_in_screen", "twin_continuation", "save_failed_cleanly", "iff1_differs_from_iff2_at_save", "save_retried_after_failure"]
     }
 
     fn gen(&self, rng: &mut Rng, _tier: Tier, _idx: u64) -> Scenario {
@@ -81,7 +81,7 @@ impl Property for C13 {
         sc.set("rec_k", rng.range(0, 12));
         sc.set("rec_chunk", *rng.pick(&[1i64, 7, 100, 16384, 5000]));
         sc.set("receiver", rng.range(0, 1));
-        sc.set("dirt", rng.range(0, 7));
+        sc.set("dirt", rng.range(0, 9));
         sc.set("more_frames", rng.range(0, 3));
         sc.set("chunk", *rng.pick(&[0i64, 1, 1000, 16384]));
         sc.set("iff_differ", rng.chance(1, 4) as i64);
@@ -188,7 +188,7 @@ impl Property for C13 {
                 format!("taking an SNA snapshot changed the running machine ({}); recorder fault kind {}", what, fault),
             ));
         }
-        let bytes = out.borrow().clone();
+        let mut bytes = out.borrow().clone();
         if fault >= 2 {
             // error clause: the save may fail, the machine must be untouched (checked above)
             if r.is_err() {
@@ -198,15 +198,28 @@ impl Property for C13 {
                 h.u64(fault as u64);
                 h.u64(k.min(12));
                 ctx.cover(h.get());
-                return Ok(());
+                // recovery: the host saves again through a healthy recorder; that file takes part in the
+                // round trip below like any other
+                if sc.get("seed") & 1 == 0 {
+                    return Ok(());
+                }
+                ctx.probe("save_retried_after_failure");
+                let (rec2, out2) = SimRecorder::new(RecorderPlan::default());
+                if let Err(x) = e.save_snapshot(SnapshotRecorder::Sna(rec2)) {
+                    return Err(Fail::new("C13.save_failed", &format!("machine={},retry=1", machine), format!("save_snapshot failed on a healthy recorder after an earlier failed save: {:?}", x)));
+                }
+                if full_hash(&mut e, m128) != h_before {
+                    return Err(Fail::new("C13.save_side_effect", &format!("machine={},save_ok=1,retry=1", machine), "the second save (after a failed one) changed the running machine".into()));
+                }
+                bytes = out2.borrow().clone();
             }
-            // the failing call index lay beyond the last write: the save succeeded
+            // otherwise the failing call index lay beyond the last write: the save succeeded
         } else if let Err(x) = &r {
             return Err(Fail::new("C13.save_failed", &format!("machine={}", machine), format!("save_snapshot failed on a healthy recorder (short writes only): {}", x)));
         }
         // ---- receiver
         let same = sc.get("receiver") == 0;
-        let dirt = sc.get("dirt").clamp(0, 7) as usize;
+        let dirt = sc.get("dirt").clamp(0, 9) as usize;
         let mut fresh_holder: Option<Emu> = None;
         // the saved machine continues as the twin; it is kept in `e` unless we load into it
         let mut twin: Option<Emu> = None;
